@@ -632,7 +632,9 @@ def judge(case, io, mo):
                 bad('kcv-documented-value', 'documented check value %s, got %s' % (case['expect'], io['kcv']))
             model('kcv_ct', io['kcv'], 'kcv_of_ct')
         model('kcv', io['kcv'], 'calculate_kcv')
-    return ps if ps else corr
+    # outside the property's domain (non-digit PINs, malformed keys, arbitrary blocks ...) the code's behaviour is not
+    # prescribed: a disagreement with the model there is not reported (a harmless rewrite may change it)
+    return ps if ps else (corr if dom else [])
 
 
 def nontrivial(case, io):
